@@ -638,6 +638,10 @@ class IH5Group(IH5InnerNode):
         dst_name: str
         if isinstance(dest, str):
             # if dest is a path, ignore inferred/passed name
+            # (list source first, missing parent groups could be created inside of it)
+            kwargs["_src_listing"] = h5_list_children(
+                src_node, kwargs.get("shallow", False)
+            )
             segs = self._abs_path(dest).split("/")
             dst_group = self.require_group("/".join(segs[:-1]) or "/")
             dst_name = segs[-1]
@@ -698,6 +702,17 @@ class H5Type(str, Enum):
         return f"{type(self).__name__}.{self.value}"
 
 
+def h5_list_children(source_node, shallow: bool = False) -> List[Any]:
+    """Return (relative path, node) pairs for the (immediate) children of a group."""
+    if isinstance(source_node, H5DatasetLike):
+        return []
+    if shallow:  # only immediate children
+        return list(source_node.items())
+    ret: List[Any] = []  # recursive listing
+    source_node.visititems(lambda name, node: ret.append((name, node)))
+    return ret
+
+
 def h5_copy_from_to(
     source_node: Union[H5DatasetLike, H5GroupLike],
     target_group: H5GroupLike,
@@ -714,6 +729,7 @@ def h5_copy_from_to(
     """
     without_attrs: bool = kwargs.pop("without_attrs", False)
     shallow: bool = kwargs.pop("shallow", False)
+    src_listing = kwargs.pop("_src_listing", None)
     for arg in ["expand_soft", "expand_external", "expand_refs"]:
         if not kwargs.pop(arg, True):
             raise ValueError("IH5 does not support keeping references!")
@@ -735,6 +751,10 @@ def h5_copy_from_to(
         node = target_group.create_dataset(target_path, data=source_node[()])
         copy_attrs(source_node, node)  # copy dataset attributes
     else:
+        # list the source before creating anything (like h5py does), otherwise
+        # copying a group into its own subtree would traverse the copy itself
+        if src_listing is None:
+            src_listing = h5_list_children(source_node, shallow)
         trg_root = target_group.create_group(target_path)
         copy_attrs(source_node, trg_root)  # copy source node attributes
 
@@ -746,8 +766,5 @@ def h5_copy_from_to(
                 trg_root.create_group(name)
             copy_attrs(src_child, trg_root[name])
 
-        if shallow:  # only immediate children
-            for name, src_child in source_node.items():
-                copy_children(name, src_child)
-        else:  # recursive copy
-            source_node.visititems(copy_children)
+        for name, src_child in src_listing:
+            copy_children(name, src_child)
